@@ -121,12 +121,12 @@ func (cache *DefaultPortalCache) Execute(ctx context.Context, name string, reade
 	defer cache.mu.Unlock()
 
 	if cache.portals == nil {
-		return nil
+		return NewErrUnkownStatement(name)
 	}
 
 	portal, has := cache.portals[name]
 	if !has {
-		return nil
+		return NewErrUnkownStatement(name)
 	}
 
 	return portal.statement.fn(ctx, NewDataWriter(ctx, portal.statement.columns, portal.formats, reader, writer), portal.parameters)
